@@ -16,7 +16,8 @@ Definition spec_compile (xpath : bool) (fls pat : list N) : verdict (sflags * re
   end.
 
 (* the regex matches the zero-length string *)
-Definition spec_nullable (fl : sflags) (r : re) : bool := spec_is_match_R fl [] r.
+Definition spec_nullable (fl : sflags) (r : re) : bool :=
+  if has_backref r then spec_is_match_R fl [] r else spec_is_match fl [] r.
 
 Section Pieces.
 Variable s : list N.
